@@ -348,6 +348,31 @@ func c05TrimStack(s string) string {
 	return strings.Join(lines, "\n")
 }
 
+// c05SecondUse: results are independent values. The owner of the first result overwrites it in place
+// (slice elements, map entries, pointees, defaulted members included); the same document unmarshalled
+// again into a fresh struct must still give the struct the generator expects.
+func c05SecondUse(cm *c05Mon, api c05API, c *c05gen.Case, first c05Out) (bool, c05Out) {
+	c05gen.Scramble(first.res.Elem())
+	out, d := c05Call(cm, api, c.Shape, c.Doc, "class=valid;second-use-after-scrambling-first-result")
+	switch {
+	case out.pv != nil:
+		cm.m.Violate(c05PanicSig(out.pv, out.stack), d, "panic: %v\n%s", out.pv, c05TrimStack(out.stack))
+		return true, out
+	case out.err != nil:
+		cm.m.Violate("C05:results-share-state", d, "the same valid document is rejected on second use, after the first result was modified in place: %v", out.err)
+		return true, out
+	case !c05gen.Equal(out.res.Elem(), c.Expect.Elem()):
+		detail := ""
+		if fd := c05gen.Audit(c.Shape, out.res, c.Doc, c05gen.AuditOpt{Env: c.Env}); fd != nil {
+			detail = fd.Detail + "\n"
+		}
+		cm.m.Violate("C05:results-share-state", d, "%ssecond unmarshal of the same document, after the first result was modified in place by its owner:\n got: %s\nwant: %s", detail, c05gen.Show(out.res), c05gen.Show(c.Expect))
+		return true, out
+	}
+	cm.m.Count("second-use.independent", 1)
+	return false, out
+}
+
 // c05Equiv checks JSON == YAML for one document (same error-ness, same struct).
 func c05Equiv(cm *c05Mon, c *c05gen.Case, doc map[string]any, j, y c05Out, dj string, what string) bool {
 	if j.pv != nil || y.pv != nil {
@@ -440,6 +465,10 @@ func c05Scenario(m *vk.M, idx int, quickDocs int) {
 		out, ds := c05Call(cm, api, shape, c.Doc, "class=valid")
 		note(out)
 		if c05Judge(cm, api, c, c.Doc, out, ds, "valid", nil) {
+			return
+		}
+		var bad2 bool
+		if bad2, out = c05SecondUse(cm, api, c, out); bad2 {
 			return
 		}
 		if withYAML {
@@ -572,6 +601,8 @@ func TestVerifC05Race(t *testing.T) {
 						bad.Store(w, true)
 						return
 					}
+					// every worker owns its result: writing into it must not touch anybody else's (or a cache)
+					c05gen.Scramble(out.res.Elem())
 				}
 			}(w)
 		}
